@@ -1968,6 +1968,16 @@ Qed.
 Lemma Pk_keep_declined : forall s0 s1, Pk sch s1 -> Pk sch (keep_declined s0 s1).
 Proof. intros. unfold keep_declined. destruct (s_declined s0); exact H. Qed.
 
+Lemma Pk_flushobj_op : forall s h, Pk sch s -> Pk sch (fst (flushobj_op sch s h)).
+Proof.
+  intros s h P. unfold flushobj_op. destruct (hget s h) as [o|]; [|exact P]. destruct (get_obj s o) as [ob|]; [|exact P].
+  assert (X : Pk sch (fst (match o_pos ob with None => (s, RErr EAssertion) | Some _ => if s_savedpend s then (s, RErr EAssertion) else
+               match save_obj (S (length (s_objs s))) sch s o [] with Ok s1 _ => (set_savedpend s1 false, ROk) | Err s1 er => (s1, RErr er) end end))).
+  { destruct (o_pos ob); [|exact P]. destruct (s_savedpend s). exact P.
+    pose proof (Pk_save_obj sch (S (length (s_objs s))) s o [] P) as Q. destruct (save_obj (S (length (s_objs s))) sch s o []) as [s1 u|s1 er]; exact Q. }
+  destruct (o_st ob); try exact P; exact X.
+Qed.
+
 Lemma Pk_step : forall s op, Pk sch s -> Pk sch (fst (step sch s op)).
 Proof.
   intros s op P. unfold step. destruct (s_declined s). exact P.
@@ -1993,6 +2003,7 @@ Proof.
     exact P1. apply Pk_keep_declined. apply Pk_reset.
   - unfold rollback_op. cbn [fst]. apply Pk_keep_declined. apply Pk_reset.
   - unfold newsession_op. destruct (flush sch s) as [s1 u|s1 er]; cbn [fst]; apply Pk_keep_declined; apply Pk_reset.
+  - apply Pk_flushobj_op; auto.
 Qed.
 
 Lemma Pk_init : Pk sch (init_sess sch).
